@@ -17,7 +17,7 @@
 # The list is passed to Curvature.tla as the constant `Fixed`: for a listed name the spec uses the transcription of
 # the repaired code and its Known_<name> exception of the ideal invariants is switched off.
 # VERIF_C10_FIXED=a,b,... (environment) overrides the list, to try a patch in a scratch tree given by VERIF_REPO.
-FIXED = []
+FIXED = ['pwcheck', 'dropersp', 'perspcs', 'lateobj']
 # ------------------------------------------------------------------------------------------------------------
 import collections
 import os
